@@ -1,5 +1,6 @@
-//go:build !verif
+//go:build !verif || !amd64
 
 package c20
 
+// the guarded-memory part of the hook-based check needs amd64 Linux (mmap placement, 64-bit words)
 const hooksCompiled = false
